@@ -96,7 +96,7 @@ def _lex_given(given, prop, timeout, chunk=6000):
                                  env={'LEX_INPUTS': path}, heap='3g')
         finally:
             os.unlink(path)
-    with ThreadPoolExecutor(max_workers=tlc.NCPU) as ex:
+    with ThreadPoolExecutor(max_workers=tlc.jvm_slots()) as ex:
         for res in ex.map(one, range(len(parts))):
             texts.update(_collect(res))
             tot['generated'] += res['generated']
